@@ -229,7 +229,7 @@ func (h *harness) batchSuite(w *mc.W, what string, recs []sigRec, salt int) {
 					map[string]string{"first_sig": mc.Hex(recs[0].sig), "first_pub": mc.Hex(recs[0].pub), "n": fmt.Sprint(len(recs))})
 			}
 			// the same verifier object after a FAILED batch (one signature bit flipped) and Reset, then after Reset again
-			if len(recs) <= 8 {
+			if len(recs) <= 8 && (salt+pi+mode)%4 == 0 { // one (preset, mode) pair per group, rotating
 				bv.Reset()
 				if mode == 1 {
 					bv.ForceNoPublicKeyExpansion()
